@@ -95,6 +95,16 @@ def cases(tier, seed, info):
     return out
 
 
+def _not_json(token):
+    raise ValueError('%s is not JSON' % token)
+
+
+def strict_loads(text):
+    """what the tool printed is read as JSON and nothing more: NaN and Infinity are no JSON values (Python's reader
+    would take them)"""
+    return json.loads(text, parse_constant=_not_json)
+
+
 def _cp(s):
     return [[ord(c) for c in line] for line in s.split('\n')]
 
@@ -102,7 +112,7 @@ def _cp(s):
 def _rec(src, intext, outtext, doc_known=None):
     parses, rt = True, False
     try:
-        back = json.loads(outtext)
+        back = strict_loads(outtext)
         rt = back == (json.loads(intext) if doc_known is None else doc_known)
     except ValueError:
         parses = False
@@ -194,7 +204,7 @@ def _pels(case):
                 recs.append(_rec('cli-' + mode + ':%d' % c[2], c[0], c[1]))
             # what was really printed parses back to the documents handed to prettyPrint
             try:
-                printed = json.loads(res['out'])
+                printed = strict_loads(res['out'])
                 if ins:
                     want = [json.loads(x) for x in ins]
                     ok = printed == (want if mode == 'all' else want[0])
@@ -252,7 +262,7 @@ def _pels(case):
                     text = f.read()
                 eid = fn.split('.')[-2].upper() if fn.count('.') >= 2 else ''
                 try:
-                    back = json.loads(text)
+                    back = strict_loads(text)
                     parses, rt = True, eid in wants and back == wants[eid]
                 except ValueError:
                     parses, rt = False, False
@@ -309,7 +319,7 @@ def _lengths(case):
                            (['-p', os.path.join(d, 'in'), '-i', '0x50002000', '-E', '-P'], 'file')):
             res = seams.run_cli(argv)
             try:
-                printed = json.loads(res['out'])
+                printed = strict_loads(res['out'])
                 ok = printed == ([want] if mode == 'all' else want)
             except ValueError:
                 ok = False
@@ -322,7 +332,7 @@ def _lengths(case):
             with open(os.path.join(d, 'out', names[0]), encoding='utf-8', errors='replace') as f:
                 got = f.read()
             try:
-                ok = json.loads(got) == want
+                ok = strict_loads(got) == want
             except ValueError:
                 ok = False
         recs.append(dict(shape_ok=hit and len(names) == 1, src='jsonfile-len' + ('-' + variant if variant else ''), inl=[], outl=[], parses=ok, roundtrip=ok,
